@@ -22,6 +22,17 @@ configuration); the i-variants run under both settings.  The negated spellings
 (``~x.contains(...)``) are exercised on a sample and must return the complement among the
 non-NULL rows.
 
+The alphabet holds both cases of one letter (a / A), so rows and operands differ in ASCII
+case only: the i-variants must still match them under ``case_sensitive_like=ON``
+(counter ``insensitive_under_case_sensitive_pragma``).  Plain ``like`` / ``ilike`` /
+``not_like`` / ``not_ilike`` with a caller-built prefix pattern (manually escaped needle +
+``%``, or no ESCAPE at all for needles free of ``% _ \\``) complete the sixteen operator
+functions.  Multi-predicate statements: 2-4 LIKE-family predicates in ONE statement,
+mixing operators, spellings, escape characters, autoescape on/off and like() without
+ESCAPE, combined by AND / OR / AND NOT / nested / CASE; each predicate must declare and use
+its own ESCAPE (model: the Python predicates combined the same way; on the recording
+DBAPIs conjunctions are split at the top-level ANDs and every conjunct is decoded).
+
 Other dialects (no server): the operator is executed on a recording DBAPI; the pattern
 is reconstructed from the recorded (sql, params) with the dialect's lexer (string
 literals + placeholders between LIKE and ESCAPE), the ESCAPE character is read from the
@@ -49,15 +60,21 @@ META = {
     "soft_s": {"quick": 50, "thorough": 800},
     "exhaustive": {"quick": True, "thorough": True},
     "require": ["queries_judged", "pairs_judged", "rows_matched", "needles_with_wildcards", "needles_with_escape_char",
-                "spelling_method", "spelling_function", "spelling_operate",
+                "spelling_method", "spelling_function", "spelling_operate", "insensitive_under_case_sensitive_pragma",
+                "multi_predicate_statements", "multi_predicate_mixed_escapes", "fake_multi_predicate_statements",
                 "fake_patterns_judged", "case_sensitive_pragma_verified"],
     "assumptions": ["SQLite LIKE implements standard % / _ / ESCAPE semantics (ASCII)"],
 }
 
-ALPHABET = ["a", "B", "%", "_", "/", "\\", "'", '"', "[", "^"]
+# both cases of one letter ("a" / "A") so that rows and operands can differ in ASCII case only
+ALPHABET = ["a", "A", "B", "%", "_", "/", "\\", "'", '"', "[", "^"]
 OPS = ("contains", "startswith", "endswith", "icontains", "istartswith", "iendswith")
 # the twelve operator functions of sqlalchemy.sql.operators: the six above and their not_ forms
 OPS12 = OPS + tuple("not_" + o for o in OPS)
+# plain like()/ilike() and their negations with a caller-built prefix pattern
+# (escaped needle + "%"): the remaining four LIKE-family operator functions
+LIKE_OPS = ("like", "ilike", "not_like", "not_ilike")
+ALL_OPS = OPS12 + LIKE_OPS
 SPELLINGS = ("method", "function", "operate")
 ESCAPES = ("/", "\\", "^", "#")
 
@@ -81,7 +98,7 @@ def py_pred(op, hay, needle):
         op, hay, needle = op[1:], hay.lower(), needle.lower()
     if op == "contains":
         return needle in hay
-    if op == "startswith":
+    if op in ("startswith", "like"):
         return hay.startswith(needle)
     return hay.endswith(needle)
 
@@ -109,6 +126,14 @@ def coarse(needle, esc):
     return "other"
 
 
+def configs_for(op, needle):
+    if split_op(op)[1] in ("like", "ilike"):
+        # without an ESCAPE clause only needles free of wildcards qualify (and free of the
+        # backslash, which is the default escape character of PostgreSQL / MySQL)
+        return ("manual",) if any(c in needle for c in "%_\\") else ("manual", "noescape")
+    return ("auto", "auto+esc", "manual")
+
+
 def build(col, op, config, esc, needle, spelling="method"):
     """three spellings of the same operator:
       method    col.contains(x, ...)            (not_ forms: ~col.contains(x, ...))
@@ -117,13 +142,20 @@ def build(col, op, config, esc, needle, spelling="method"):
     """
     from sqlalchemy.sql import operators
 
-    if config == "auto":
+    neg, base = split_op(op)
+    if base in ("like", "ilike"):
+        # the caller builds the pattern: literal needle as a prefix
+        if config == "noescape":
+            assert "%" not in needle and "_" not in needle
+            arg, kw = needle + "%", {}
+        else:
+            arg, kw = manual_escape(needle, esc) + "%", {"escape": esc}
+    elif config == "auto":
         arg, kw = needle, {"autoescape": True}
     elif config == "auto+esc":
         arg, kw = needle, {"autoescape": True, "escape": esc}
     else:
         arg, kw = manual_escape(needle, esc), {"escape": esc}
-    neg, base = split_op(op)
     if spelling == "method":
         e = getattr(col, base)(arg, **kw)
         return ~e if neg else e
@@ -158,6 +190,7 @@ def run(ctx):
         conn.execute(h.insert(), rows)
         conn.commit()
         _run_sqlite(ctx, sa, conn, h, rows, nonnull_ids)
+        _run_multi(ctx, sa, conn, h, rows)
     finally:
         conn.close()
         eng.dispose()
@@ -186,13 +219,13 @@ def _run_sqlite(ctx, sa, conn, h, rows, nonnull_ids):
     pragma_state = None
     for cs in (True, False):
         for ni, needle in enumerate(needles):
-            for oi, op in enumerate(OPS12):
+            for oi, op in enumerate(ALL_OPS):
                 insensitive = split_op(op)[1].startswith("i")
                 if not cs and (not insensitive or ni % 2):
                     continue
                 # every (operator, spelling) pair is reached: the spelling rotates with the needle
                 spelling = SPELLINGS[(ni + oi) % 3]
-                for config in ("auto", "auto+esc", "manual"):
+                for config in configs_for(op, needle):
                     idx += 1
                     if not ctx.mine(idx):
                         continue
@@ -202,6 +235,10 @@ def _run_sqlite(ctx, sa, conn, h, rows, nonnull_ids):
                         _set_pragma(ctx, conn, cs)
                         pragma_state = cs
                     esc = "/" if config == "auto" else ESCAPES[(idx // 7) % len(ESCAPES)]
+                    if needle.lower() != needle or needle.upper() != needle:
+                        ctx.count("needles_with_letters")
+                        if insensitive and cs:
+                            ctx.count("insensitive_under_case_sensitive_pragma")
                     literal = (idx // 3) % 2 == 1
                     negate = idx % 11 == 0
                     desc = {"op": op, "spelling": spelling, "config": config, "escape": esc, "needle": needle, "literal": literal, "cs": cs, "negated": negate}
@@ -248,6 +285,162 @@ def _run_sqlite(ctx, sa, conn, h, rows, nonnull_ids):
                         ctx.sample(dict(desc, sql=sql, matched=len(got)))
 
 
+# ---------------------------------------------------------------------------
+# several LIKE-family predicates in ONE statement
+# ---------------------------------------------------------------------------
+def random_predicate(rng, needles):
+    op = rng.choice(ALL_OPS)
+    needle = rng.choice(needles)
+    config = rng.choice(configs_for(op, needle))
+    esc = "/" if config == "auto" else rng.choice(ESCAPES)
+    return {"op": op, "needle": needle, "config": config, "escape": None if config == "noescape" else esc,
+            "spelling": rng.choice(SPELLINGS)}
+
+
+def build_pred(col, p):
+    return build(col, p["op"], p["config"], p["escape"] or "/", p["needle"], p["spelling"])
+
+
+COMBINERS = ("and", "or", "and-not", "nested", "case", "and4")
+
+
+def combine(sa, how, exprs):
+    if how == "and":
+        return sa.and_(*exprs[:2])
+    if how == "or":
+        return sa.or_(*exprs[:2])
+    if how == "and-not":
+        return sa.and_(exprs[0], sa.not_(exprs[1]))
+    if how == "nested":
+        return sa.or_(sa.and_(exprs[0], exprs[1]), exprs[2])
+    if how == "case":
+        return sa.case((exprs[0], exprs[1]), else_=exprs[2])
+    return sa.and_(sa.or_(exprs[0], exprs[1]), sa.or_(exprs[2], exprs[3]))
+
+
+def combine_py(how, b):
+    if how == "and":
+        return b[0] and b[1]
+    if how == "or":
+        return b[0] or b[1]
+    if how == "and-not":
+        return b[0] and not b[1]
+    if how == "nested":
+        return (b[0] and b[1]) or b[2]
+    if how == "case":
+        return b[1] if b[0] else b[2]
+    return (b[0] or b[1]) and (b[2] or b[3])
+
+
+NPRED = {"and": 2, "or": 2, "and-not": 2, "nested": 3, "case": 3, "and4": 4}
+
+
+def _run_multi(ctx, sa, conn, h, rows):
+    """2-4 LIKE-family predicates in one statement, mixing operators, spellings, escape
+    characters, autoescape on/off and a plain like() without ESCAPE, combined with AND / OR /
+    NOT / CASE: every predicate must declare and use its own ESCAPE.  SQLite, bound and
+    literal_binds; model = the Python predicates combined the same way (the NULL row never
+    matches: every predicate is NULL there)."""
+    rng = ctx.rng
+    needles = [n for n in strings(2)] + ["a%", "%_", "/a", "^%", "a^", "A/", "\\_", "#a", "a_B"]
+    _set_pragma(ctx, conn, True)
+    n = ctx.pick({"quick": 110, "thorough": 1500})
+    for k in range(n):
+        if not ctx.budget_ok():
+            return
+        how = COMBINERS[k % len(COMBINERS)]
+        preds = [random_predicate(rng, needles) for _ in range(NPRED[how])]
+        if k % 2 == 0:  # force two different escape declarations into the statement
+            preds[0]["config"], preds[0]["escape"] = ("manual", "^") if split_op(preds[0]["op"])[1] in ("like", "ilike") else ("auto+esc", "^")
+            if split_op(preds[1]["op"])[1] not in ("like", "ilike"):
+                preds[1]["config"], preds[1]["escape"] = "auto", "/"
+        escapes = {p["escape"] for p in preds}
+        literal = k % 3 == 0
+        desc = {"combiner": how, "predicates": preds, "literal": literal}
+        st = sa.select(h.c.id).where(combine(sa, how, [build_pred(h.c.s, p) for p in preds])).order_by(h.c.id)
+        try:
+            if literal:
+                sql = str(st.compile(conn.engine, compile_kwargs={"literal_binds": True}))
+                got = [r[0] for r in conn.exec_driver_sql(sql)]
+            else:
+                sql = str(st.compile(conn.engine))
+                got = [r[0] for r in conn.execute(st)]
+        except sa.exc.SQLAlchemyError as e:
+            ctx.violation(f"sqlite-like-multi-error:{how}", f"{type(e).__name__}: {str(e)[:200]}", desc)
+            continue
+        want = [r["id"] for r in rows if r["s"] is not None
+                and combine_py(how, [py_pred(p["op"], r["s"], p["needle"]) for p in preds])]
+        ctx.case(desc, nontrivial=len(escapes) > 1)
+        ctx.count("multi_predicate_statements")
+        ctx.count("rows_matched", len(got))
+        if len(escapes) > 1:
+            ctx.count("multi_predicate_mixed_escapes")
+        if got != want:
+            byid = {r["id"]: r["s"] for r in rows}
+            extra = [byid[i] for i in sorted(set(got) - set(want))[:3]]
+            missed = [byid[i] for i in sorted(set(want) - set(got))[:3]]
+            ctx.violation(
+                f"sqlite-like-multi:{how}:{'mixed-escapes' if len(escapes) > 1 else 'one-escape'}",
+                f"{how} of {[(p['op'], p['needle'], p['config'], p['escape']) for p in preds]}: wrongly matched {extra} missed {missed} :: {sql}",
+                dict(desc, sql=sql, wrongly_matched=extra, missed=missed),
+            )
+        if k < 2:
+            ctx.sample(dict(desc, sql=sql, matched=len(got)))
+
+
+def _fake_multi(ctx, sa, T, conn, fake, name, paramstyle, h, hays):
+    """conjunctions of 2-4 predicates on the recording DBAPI: the WHERE clause is split at
+    its top-level ANDs, every conjunct is decoded and judged on its own."""
+    rng = ctx.rng
+    needles = [n for n in strings(1)] + ["a%", "/a", "^_", "A^", "a/B"]
+    for k in range(ctx.pick({"quick": 40, "thorough": 300})):
+        preds = [random_predicate(rng, needles) for _ in range(2 + k % 3)]
+        if k % 2 == 0 and split_op(preds[0]["op"])[1] not in ("like", "ilike") and split_op(preds[1]["op"])[1] not in ("like", "ilike"):
+            preds[0]["config"], preds[0]["escape"] = "auto+esc", "^"
+            preds[1]["config"], preds[1]["escape"] = "auto", "/"
+        st = sa.select(h.c.id).where(sa.and_(*[build_pred(h.c.s, p) for p in preds]))
+        mark = fake.mark()
+        conn.execute(st)
+        ev = fake.since(mark, ("execute",))[-1]
+        desc = {"dialect": name, "predicates": preds, "sql": ev.sql, "params": repr(ev.params)}
+        try:
+            toks = T.where_tokens(ev.sql, name, paramstyle)
+            parts, cur, depth = [], [], 0
+            for t in toks:
+                if t.kind == "punct" and t.text == "(":
+                    depth += 1
+                elif t.kind == "punct" and t.text == ")":
+                    depth -= 1
+                if depth == 0 and t.kind == "kw" and t.text == "AND":
+                    parts.append(cur)
+                    cur = []
+                else:
+                    cur.append(t)
+            parts.append(cur)
+            if len(parts) != len(preds):
+                raise ValueError(f"{len(parts)} conjuncts for {len(preds)} predicates")
+            decoded = [decode_like(T, ev.sql, ev.params, name, paramstyle, toks=part) for part in parts]
+        except (ValueError, T.LexError, StopIteration) as e:
+            ctx.violation(f"{name}-like-multi-undecodable", f"{type(e).__name__}: {e} :: {ev.sql}", desc)
+            continue
+        ctx.count("fake_multi_predicate_statements")
+        ctx.case({"dialect": name, "predicates": preds}, nontrivial=len({p["escape"] for p in preds}) > 1)
+        for p, (pattern, e2, casefold, negated) in zip(preds, decoded):
+            if e2 != p["escape"]:
+                ctx.violation(f"{name}-like-multi:escape-clause-of-another-predicate",
+                              f"{p['op']}({p['needle']!r}, {p['config']}, escape={p['escape']!r}) declares ESCAPE {e2!r} :: {ev.sql} {ev.params!r}", desc)
+                break
+            try:
+                items = T.like_compile(pattern, e2, name)
+            except ValueError as e:
+                ctx.violation(f"{name}-like-multi-undecodable", f"{e} :: {ev.sql}", desc)
+                break
+            bad = [x for x in hays if (T.like_match(items, x, casefold) != negated) != py_pred(p["op"], x, p["needle"])]
+            if bad:
+                ctx.violation(f"{name}-like-multi:predicate-disagrees", f"{p} pattern {pattern!r} ESCAPE {e2!r} disagrees on {bad[:3]} :: {ev.sql}", desc)
+                break
+
+
 FAKE_URLS = {
     "postgresql": "postgresql+psycopg2://u:p@h/db",
     "mysql": "mysql+pymysql://u:p@h/db",
@@ -256,10 +449,11 @@ FAKE_URLS = {
 }
 
 
-def decode_like(T, sql, params, dialect, paramstyle):
+def decode_like(T, sql, params, dialect, paramstyle, toks=None):
     """-> (pattern, escape, casefold, negated) reconstructed from the WHERE clause of
-    the recorded statement."""
-    toks = T.where_tokens(sql, dialect, paramstyle)
+    the recorded statement (or from the given slice of its tokens)."""
+    if toks is None:
+        toks = T.where_tokens(sql, dialect, paramstyle)
     li = next(i for i, t in enumerate(toks) if t.kind == "kw" and t.text in ("LIKE", "ILIKE"))
     negated = li > 0 and toks[li - 1].kind == "kw" and toks[li - 1].text == "NOT"
     casefold = toks[li].text == "ILIKE" or any(t.kind == "ident" and t.text.lower() == "lower" for t in toks[:li])
@@ -304,9 +498,9 @@ def _run_fake(ctx, sa, haystacks):
         k = 0
         with eng.connect() as conn:
             for ni, needle in enumerate(needles):
-                for oi, op in enumerate(OPS12):
+                for oi, op in enumerate(ALL_OPS):
                     spelling = SPELLINGS[(ni + oi) % 3]
-                    for config in ("auto", "auto+esc", "manual"):
+                    for config in configs_for(op, needle):
                         k += 1
                         if ctx.quick and (ni + (k % 3)) % 3 != ctx.seed % 3:
                             continue
@@ -338,4 +532,6 @@ def _run_fake(ctx, sa, haystacks):
                                 f"{op}({needle!r},{config},escape={esc!r}) on {name}: pattern {pattern!r} ESCAPE {e2!r} disagrees with Python on {bad[:3]} :: {ev.sql} {ev.params!r}",
                                 dict(desc, sql=ev.sql, params=ev.params, pattern=pattern, disagree=bad[:5]),
                             )
+        with eng.connect() as conn:
+            _fake_multi(ctx, sa, T, conn, fake, name, paramstyle, h, hays)
         eng.dispose()
